@@ -88,7 +88,7 @@ impl BufKind {
 }
 
 /// Capacities for which `ArrayBuf<N>` is instantiated in this harness.
-pub const CAPS: &[usize] = &[0, 1, 2, 3, 4, 5, 6, 7, 8, 9, 10, 11, 12, 13, 14, 15, 16, 17, 18, 19, 20, 21, 22, 23, 24, 25, 26, 27, 28, 29, 30, 31, 32, 33, 48, 64, 255, 256, 257, 1023, 1024, 1025, 8191, 8192, 8193, 65535, 65536, 65537];
+pub const CAPS: &[usize] = &[0, 1, 2, 3, 4, 5, 6, 7, 8, 9, 10, 11, 12, 13, 14, 15, 16, 17, 18, 19, 20, 21, 22, 23, 24, 25, 26, 27, 28, 29, 30, 31, 32, 33, 48, 64, 255, 256, 257, 1023, 1024, 1025, 8191, 8192, 8193, 65535, 65536, 65537, 70000];
 pub fn has_cap(n: usize) -> bool {
     CAPS.contains(&n)
 }
@@ -107,7 +107,7 @@ macro_rules! caps_match {
 pub fn with_buf<V: BufVisitor>(kind: BufKind, v: V) -> Option<V::Out> {
     match kind {
         BufKind::Vec => Some(v.visit::<Vec<u8>>()),
-        BufKind::Arr(n) => caps_match!(n, v, [0, 1, 2, 3, 4, 5, 6, 7, 8, 9, 10, 11, 12, 13, 14, 15, 16, 17, 18, 19, 20, 21, 22, 23, 24, 25, 26, 27, 28, 29, 30, 31, 32, 33, 48, 64, 255, 256, 257, 1023, 1024, 1025, 8191, 8192, 8193, 65535, 65536, 65537]),
+        BufKind::Arr(n) => caps_match!(n, v, [0, 1, 2, 3, 4, 5, 6, 7, 8, 9, 10, 11, 12, 13, 14, 15, 16, 17, 18, 19, 20, 21, 22, 23, 24, 25, 26, 27, 28, 29, 30, 31, 32, 33, 48, 64, 255, 256, 257, 1023, 1024, 1025, 8191, 8192, 8193, 65535, 65536, 65537, 70000]),
     }
 }
 
